@@ -338,6 +338,36 @@ class Catalogue:
                 self.registrations.append(Registration(reg or "?" + norm(reg_expr), norm(reg_expr), method, list(node.args), mod, node,
                                                        target, target_expr, guarded))
 
+    def expand_pattern(self, reg: Registration) -> List[Tuple[str, ...]]:
+        """Signatures a registration stands for: tuple-union expansion as multipledispatch.expand_tuples does, looking
+        through module-level names bound once to a tuple display (``GROUND_TERMS = (Delta, Number, Tensor, Gaussian)``)."""
+        import itertools
+        alts = []
+        for p in reg.pattern:
+            e = p
+            if isinstance(e, (ast.Name, ast.Attribute)):
+                r = self.prog.resolve_expr(reg.module, e)
+                lk = self.prog.lookup(r) if r else None
+                if lk and lk[0] == "value" and len(lk[1].bindings.get(r.rsplit(".", 1)[-1], [])) == 1:
+                    v = lk[2]
+                    # `GROUND_TERMS = tuple(ORDERING)` with `ORDERING = {Delta: 1, ...}`: the keys in display order
+                    if isinstance(v, ast.Call) and isinstance(v.func, ast.Name) and v.func.id in ("tuple", "list") and len(v.args) == 1 \
+                            and isinstance(v.args[0], (ast.Name, ast.Attribute)):
+                        r2 = self.prog.resolve_expr(lk[1], v.args[0])
+                        lk2 = self.prog.lookup(r2) if r2 else None
+                        if lk2 and lk2[0] == "value" and len(lk2[1].bindings.get(r2.rsplit(".", 1)[-1], [])) == 1:
+                            if isinstance(lk2[2], ast.Dict) and all(k is not None for k in lk2[2].keys):
+                                v = ast.Tuple(elts=list(lk2[2].keys), ctx=ast.Load())
+                            elif isinstance(lk2[2], (ast.Tuple, ast.List)):
+                                v = lk2[2]
+                    if isinstance(v, ast.Tuple):
+                        e = v
+            if isinstance(e, ast.Tuple):
+                alts.append([norm(x) for x in e.elts])
+            else:
+                alts.append([norm(e)])
+        return list(itertools.product(*alts))
+
     def registrations_for(self, registry: str) -> List[Registration]:
         return [r for r in self.registrations if r.registry == registry]
 
